@@ -84,11 +84,17 @@ package envelope
 //@ // Read: a non-EOF error of the underlying reader is latched in r.err (and never cleared);
 //@ // otherwise exactly the bytes handed to the caller are absorbed by the hash
 //@ func (*CIDReader).Read
+//@   implements (io.Reader).Read
 //@   requires r != nil && r.r != nil && r.hash != nil
-//@   ensures [C18] latch: (err != nil && err != io.EOF) ==> r.err != nil && failed(r.r)
+//@   ensures [C18] latch: (err != nil && err != io.EOF) ==> r.err != nil && failed(r.r) > old(failed(r.r))
 //@   ensures [C18] sticky: old(r.err) != nil ==> r.err != nil
+//@   ensures [C18] quiet: (err == nil || err == io.EOF) ==> r.err == old(r.err)
 //@   ensures [C08,C18] absorb: (err == nil || err == io.EOF) ==> absorbed(r.hash) == old(absorbed(r.hash)) ++ bytes(p[0:n]) && delivered(r.r) == old(delivered(r.r)) ++ bytes(p[0:n]) && failed(r.r) == old(failed(r.r))
 //@   ensures [C18] nochange: (err != nil && err != io.EOF) ==> absorbed(r.hash) == old(absorbed(r.hash))
+//@   // over any number of calls (made by a decoder): once an error is latched it stays; while none is latched, the hash
+//@   // has absorbed, and the inner reader has delivered, exactly the bytes handed to the decoder, and the inner reader has not failed
+//@   stream [C18] sticky: old(r.err) != nil ==> r.err != nil
+//@   stream [C08,C18] tee: r.err == nil ==> hasPrefix(delivered(box(r)), old(delivered(box(r)))) && absorbed(r.hash) == old(absorbed(r.hash)) ++ after(delivered(box(r)), old(delivered(box(r)))) && delivered(r.r) == old(delivered(r.r)) ++ after(delivered(box(r)), old(delivered(box(r)))) && failed(r.r) == old(failed(r.r))
 //@   assigns p, r.err, delivered(r.r), failed(r.r), absorbed(r.hash)
 //@
 //@ func (*CIDReader).CID
@@ -99,9 +105,14 @@ package envelope
 //@
 //@ // Write: the bytes are absorbed by the hash and handed to the sink; an error of the sink is returned
 //@ func (*CIDWriter).Write
+//@   implements (io.Writer).Write
 //@   requires w != nil && w.w != nil && w.hash != nil
 //@   ensures [C08,C18] through: err == nil ==> n == len(p) && absorbed(w.hash) == old(absorbed(w.hash)) ++ bytes(p) && written(w.w) == old(written(w.w)) ++ bytes(p) && wfailed(w.w) == old(wfailed(w.w))
-//@   ensures [C18] fault: wfailed(w.w) && !old(wfailed(w.w)) ==> err != nil
+//@   ensures [C18] fault: wfailed(w.w) > old(wfailed(w.w)) ==> err != nil
+//@   // over any number of calls (made by an encoder): while no call has failed, the hash has absorbed, and the sink has
+//@   // accepted, exactly the bytes written, and the sink has not failed
+//@   stream [C18] mono: wfailed(box(w)) >= old(wfailed(box(w)))
+//@   stream [C08,C18] tee: wfailed(box(w)) == old(wfailed(box(w))) ==> hasPrefix(written(box(w)), old(written(box(w)))) && absorbed(w.hash) == old(absorbed(w.hash)) ++ after(written(box(w)), old(written(box(w)))) && written(w.w) == old(written(w.w)) ++ after(written(box(w)), old(written(box(w)))) && wfailed(w.w) == old(wfailed(w.w))
 //@   assigns w.err, absorbed(w.hash), written(w.w), wfailed(w.w)
 //@
 //@ func (*CIDWriter).CID
